@@ -306,12 +306,12 @@ static std::function<void()> g_in_ctor, g_in_dtor;
 static int g_arg0 = 0;                      // what the zero-argument constructor stamps (alloc() without arguments)
 // Storage is in use from the moment its constructor starts until its destructor has finished (or its constructor has thrown).
 struct CtorFailure {};                      // what a failing element constructor throws (ALLOC_THROW)
-static long g_ctor_failed = 0;
+static long g_ctor_failed = 0; static const void *g_failed_at = nullptr;   // storage in which the last failing constructor ran
 static void on_ctor(const void *self) { g_ctor++;
   if (g_inuse.count(self)) flag("pool-constructs-in-storage-still-in-use");
   g_inuse.insert(self);
   if (g_in_ctor) { std::function<void()> f; f.swap(g_in_ctor);
-    try { f(); } catch (...) { g_inuse.erase(self); g_ctor_failed++; throw; } } }
+    try { f(); } catch (...) { g_inuse.erase(self); g_ctor_failed++; g_failed_at = self; throw; } } }
 static void on_dtor(const void *self, bool alive) { g_dtor++;
   if (!alive) flag("pool-destructs-object-that-is-not-alive");
   if (g_in_dtor) { std::function<void()> f; f.swap(g_in_dtor); f(); }
@@ -409,7 +409,9 @@ static std::string run(const std::vector<Op> &h, std::string &viol, size_t keep,
         case ALLOC: { int s = ++serial; A(s); label = std::string("pool:alloc") + src; } break;
         case ALLOC0: { int s = ++serial; g_arg0 = s; P *x = pool.alloc(); g_arg0 = -1; born.push_back(Born{x, s}); label = std::string("pool:alloc()") + src; } break;
         case ALLOC_THROW: { int s = ++serial; want_throw = true; g_in_ctor = []() { throw CtorFailure(); };
+          g_failed_at = nullptr;
           try { P *x = pool.alloc(s); if (x) born.push_back(Born{x, s}); } catch (CtorFailure &) { threw = true; }
+          if (g_failed_at) blk.insert(g_failed_at);   // a block the harness has seen: an exception-safe pool may park it (present code loses it)
           label = std::string("pool:alloc(ctor-throws)") + src; } break;
         case ALLOC_NEST: { int outer = ++serial, inner = ++serial; g_in_ctor = [&, inner]() { A(inner); }; A(outer); label = "pool:alloc-nested"; } break;
         case ALLOC_NEST2: { int s1 = ++serial, s2 = ++serial, s3 = ++serial;
